@@ -807,11 +807,10 @@ pub fn run(opts: &Opts) -> i32 {
     for l in &known_lines {
         println!("{}", l);
     }
-    let (results, viol) = run_batch(n, opts.workers, move |i| job(seed, i));
     let mut st = Stats::default();
-    let mut nt: HashSet<u64> = HashSet::new();
+    let mut nt = Distinct::new();
     let mut samples = Vec::new();
-    for (_, r) in &results {
+    let (jobs_done, viol) = run_batch_chunked(n, opts.workers, move |i| job(seed, i), |_, r| {
         add(&mut st, &r.st);
         nt.extend(r.nontrivial_hashes.iter());
         if samples.len() < 4 {
@@ -819,7 +818,7 @@ pub fn run(opts: &Opts) -> i32 {
                 samples.push(s.clone());
             }
         }
-    }
+    });
     let wall = t0.elapsed().as_secs_f64();
     let mut code = 0;
     let mut violations = 0;
@@ -861,7 +860,7 @@ pub fn run(opts: &Opts) -> i32 {
             "histories_also_checked_against_flag_independent_G_model": st.independent_g_models,
         }));
         extra.insert("runs_per_hour".into(), json!(((st.histories as f64) / wall.max(1e-9) * 3600.0) as u64));
-        extra.insert("seeds".into(), json!(format!("derive({}, 0..{})", seed, results.len())));
+        extra.insert("seeds".into(), json!(format!("derive({}, 0..{})", seed, jobs_done)));
         extra.insert("real_vs_stub".into(), json!({
             "real": ["Regex::find_iter / Matches::next", "the search primitive find_from_pos_with_option_flags", "vm::run", "regex-automata"],
             "model": ["executable transcription of the statement (sim/src/c08.rs model_history), querying the same real search layer under the same fault plan"],
